@@ -12,6 +12,10 @@ VARIANTS = [  # (name, mode or None, status, chkinfeas, fail)
     ("st200", None, 200, False, False), ("st200-chkinfeas", None, 200, True, False),
     ("mode0", 0, 0, False, False), ("modeall", 1023, 0, False, False), ("modeall-fail", 1023, 0, False, True),
     ("limit400-fail", None, 400, False, True),
+    # the check is skipped for the infeasible class only (200..299): the neighbouring classes keep it
+    ("st300", None, 300, False, False), ("st301-fail", None, 301, False, True), ("st349", None, 349, False, False),
+    ("st199-fail", None, 199, False, True), ("st299", None, 299, False, False), ("st299-chkinfeas-fail", None, 299, True, True),
+    ("st455", None, 455, False, False), ("st350-fail", None, 350, False, True),
 ]
 
 
